@@ -21,6 +21,19 @@ FAULTS = ["non-procedure", "arity", "unbound-read", "unbound-set", "wrong-type",
 CONTEXTS = ["direct", "tail", "apply", "library", "derived"]
 
 
+# signature table for the systematic wrong-type faults: N number, Z exact integer, I index, P pair, L list, V mutable vector, F procedure, A anything; "T*" = zero or more T
+SIGNATURES = ([(n, ["P"]) for n in ("car", "cdr", "caar", "cadr", "cdar", "cddr", "caddr", "cdddr", "last-pair")]
+              + [(n, ["N*"]) for n in ("+", "*", "-", "/", "=", "<", ">", "<=", ">=", "max", "min")]
+              + [("abs", ["N"]), ("floor-quotient", ["Z", "Z"]), ("floor-remainder", ["Z", "Z"]),
+                 ("vector-length", ["V"]), ("vector-ref", ["V", "I"]), ("vector-set!", ["V", "I", "A"]), ("make-vector", ["I", "A"]),
+                 ("apply", ["F", "L"]), ("apply", ["F", "A", "L"])])
+# only natively implemented builtins (and the c[ad]r compositions, which end in one): what map, append or list-tail do with a non-list is "an error" in
+# R7RS without a demanded detection, and C08 speaks of builtins
+VALID = {"N": [1, 2, 7, Fraction(1, 2)], "Z": [7, 3, 2], "I": [0, 1], "P": [q([[1, 2], 3, 4, 5])], "L": [q([1])], "V": [S("vv")], "F": [S("id")], "A": [0, q(S("k"))]}
+WRONG = {"num": [5], "sym": [q(S("a"))], "str": ["s"], "bool": [True, False], "nil": [q([])], "pair": [q([1, 2])], "vec": [[S("vector"), 1, 2]], "proc": [S("car")]}
+COMPATIBLE = {"N": {"num"}, "Z": {"num"}, "I": {"num"}, "P": {"pair"}, "L": {"nil", "pair"}, "V": {"vec"}, "F": {"proc"}}
+
+
 def parse(t):
     from . import sxread
     return sxread.parse_one(t)
@@ -50,6 +63,8 @@ class FG:
                 ([S("lambda"), [S("a"), S("b")], S("a")], [t(1)]), ([S("lambda"), [S("a"), Sym("."), S("r")], S("a")], []) if False else (S("fr"), []),
                 (S("vector-set!"), [S("vv"), 0]), (S("eqv?"), [t(1)]), (S("list-tail"), [q([1, 2])]),
             ])
+        if fault == "wrong-type" and r.random() < 0.5:
+            return self.systematic_wrong_type()
         if fault == "wrong-type":
             return r.choice([
                 (S("car"), [t(5)]), (S("cdr"), [q(S("a"))]), (S("+"), [1, t(q(S("a")))]), (S("+"), [t("s"), 1]), (S("-"), ["s"]),
@@ -74,6 +89,24 @@ class FG:
         if fault == "unbound-set":
             return None, [S("set!"), S("no-such-variable"), t(1)]
         raise ValueError(fault)
+
+    def systematic_wrong_type(self):
+        """a builtin from the signature table, at one of its arities, with one typed position holding a value of another type"""
+        r = self.rng
+        name, sig = r.choice(SIGNATURES)
+        if sig and sig[-1].endswith("*"):
+            base, rep = sig[:-1], sig[-1][:-1]
+            sig = base + [rep] * r.randint(0 if base else 1, 3)
+        typed = [i for i, t in enumerate(sig) if t != "A"]
+        bad = r.choice(typed)
+        args = []
+        for i, t in enumerate(sig):
+            if i == bad:
+                v = r.choice([x for k, xs in WRONG.items() if k not in COMPATIBLE[t] for x in xs])
+            else:
+                v = r.choice(VALID[t])
+            args.append(self.tick(v) if r.random() < 0.3 else v)
+        return S(name), args
 
     def embed(self, e, depth):
         """put expression e at a random position and depth of a valid expression"""
